@@ -31,6 +31,9 @@ type cfCase struct {
 	Fields   []string `json:"fields"`
 	Grouping string   `json:"grouping"`
 	Exported bool     `json:"exported"`
+	Prelude  string   `json:"prelude"` // none | const | type: declaration in front of the var block
+	Shadow   bool     `json:"shadow"`  // main declares a package-level variable named like field 1
+	idx      int      // case index (field names are made unique per case when Shadow)
 	Tagged   bool     `json:"tagged"` // every spec of the var block carries a tag k:"<first name of the spec>"
 	Methods  []string `json:"methods"`
 	Block    []struct {
@@ -63,6 +66,9 @@ func (c *cfCase) fname(i int) string {
 	l := []string{"m", "a", "z", "b"}[(i-1)%4]
 	if c.Exported {
 		l = strings.ToUpper(l)
+	}
+	if c.Shadow {
+		return fmt.Sprintf("%s%dx%d", l, i, c.idx)
 	}
 	return fmt.Sprintf("%s%d", l, i)
 }
@@ -202,6 +208,12 @@ func (c *cfCase) classFile(idx int) string {
 		}
 		return strings.Join(ns, ", ") + " " + cfGoType(t, cls) + tag
 	}
+	switch c.Prelude {
+	case "const":
+		fmt.Fprintf(&sb, "const K%d = 1\n\n", idx)
+	case "type":
+		fmt.Fprintf(&sb, "type Aux%d int\n\n", idx)
+	}
 	if c.Grouping == "single" {
 		sb.WriteString("var " + spec(c.Block[0].Names, c.Block[0].Type) + "\n\n")
 	} else {
@@ -255,6 +267,23 @@ func (c *cfCase) driver(idx int) string {
 		}
 	}
 	w("\to := &%s{%s}\n", cls, strings.Join(inits, ", "))
+	second := func() {
+		w("\to2 := &%s{%s}\n", cls, strings.Join(inits, ", "))
+		for i, t := range c.Fields {
+			f := "o2." + c.fname(i+1)
+			if t == "ptr" {
+				f += " == o2"
+			}
+			w("\tfmt.Println(\"second\", %d, %s)\n", i+1, f)
+		}
+		if c.Shadow {
+			g := c.fname(1)
+			if c.Fields[0] == "ptr" {
+				g += " != nil"
+			}
+			w("\tfmt.Println(\"global\", %s)\n", g)
+		}
+	}
 	for pass := 1; pass <= 2; pass++ {
 		x := pass + 1
 		for _, m := range c.Methods {
@@ -282,7 +311,11 @@ func (c *cfCase) driver(idx int) string {
 			w("\tfmt.Println(\"field\", %d, %s)\n", i+1, f)
 		}
 	}
+	second()
 	w("}\n\n")
+	if c.Shadow {
+		w("var %s %s\n\n", c.fname(1), cfGoType(c.Fields[0], cls))
+	}
 	return sb.String()
 }
 
@@ -437,6 +470,9 @@ func (c *cfCase) wantShape(idx int) cfShape {
 func runClassFile() {
 	cases := hlib.ReadAllCases[cfCase]()
 	n := len(cases)
+	for i := range cases {
+		cases[i].idx = i
+	}
 	mk := func() []*unit {
 		us := make([]*unit, n)
 		for i := range us {
@@ -505,8 +541,8 @@ func runClassFile() {
 	for i := range cases {
 		c := &cases[i]
 		res := hlib.Result{Idx: i, V: "ok",
-			Input: map[string]any{"class": c.classFile(i), "fields": c.Fields, "grouping": c.Grouping, "methods": c.Methods, "exported": c.Exported},
-			NT:    fmt.Sprintf("%v/%s/%v/%v/%v", c.Fields, c.Grouping, c.Methods, c.Exported, c.Tagged)}
+			Input: map[string]any{"class": c.classFile(i), "fields": c.Fields, "grouping": c.Grouping, "methods": c.Methods, "exported": c.Exported, "prelude": c.Prelude, "shadow": c.Shadow},
+			NT:    fmt.Sprintf("%v/%s/%v/%v/%v/%s/%v", c.Fields, c.Grouping, c.Methods, c.Exported, c.Tagged, c.Prelude, c.Shadow)}
 		shapeKey := strings.Join(c.Methods, ",")
 		rank := 0
 		set := func(r int, v, sig, detail string) {
